@@ -30,6 +30,9 @@ use std::time::Duration;
 
 /// Same bound as `FUEL` in coq/Alloc/Model.v.
 const FUEL: usize = 4;
+/// Under Miri (thorough tier, supporting evidence) the inspection hooks are not called: only the
+/// crate's own pointer accesses are checked, and the output is not compared with the model.
+const MIRI: bool = cfg!(miri);
 
 fn main() {
     implrun::run_main(run_line)
@@ -143,8 +146,15 @@ fn run_alloc(c: &mut Cur) -> Vec<u64> {
     let mut h = inner.handle();
     let mut live: Vec<(*mut u8, Layout, usize)> = Vec::new();
     let mut out = Vec::new();
-    let tail = |inner: &CQueueLLAllocatorInner, obs: &Rc<RefCell<Obs>>, out: &mut Vec<u64>| {
+    #[allow(clippy::borrowed_box)]
+    let tail = |inner: &Box<CQueueLLAllocatorInner>, obs: &Rc<RefCell<Obs>>, out: &mut Vec<u64>| {
         out.push(obs.borrow().pages.len() as u64);
+        if MIRI {
+            // reading the allocator through `&inner` while a handle (raw pointer) is in use is itself an
+            // aliasing-model violation; the Miri run checks the allocator's own accesses only
+            out.extend([0, 0]);
+            return;
+        }
         out.push(inner.verif_allocated_mem() as u64);
         out.push(inner.verif_free_list().len() as u64);
     };
@@ -221,7 +231,7 @@ fn run_alloc(c: &mut Cur) -> Vec<u64> {
             Some(3) => {
                 c.next();
                 let o = obs.borrow();
-                let fl = inner.verif_free_list();
+                let fl = if MIRI { Vec::new() } else { inner.verif_free_list() };
                 out.extend([5, fl.len() as u64]);
                 for (a, s) in fl {
                     out.extend(o.loc(a));
@@ -393,9 +403,9 @@ fn run_queue<P: Payload>(c: &mut Cur, probe: bool) -> Vec<u64> {
     let mut out = Vec::new();
     let mut tally: BTreeMap<u64, u32> = BTreeMap::new();
     let tail = |q: &CQueue<P>, obs: &Rc<RefCell<Obs>>, out: &mut Vec<u64>| {
-        out.push(q.verif_alloc().verif_allocated_mem() as u64);
+        out.push(if MIRI { 0 } else { q.verif_alloc().verif_allocated_mem() as u64 });
         out.push(obs.borrow().pages.len() as u64);
-        out.push(q.verif_snapshot().links_ok as u64);
+        out.push(if MIRI { 1 } else { q.verif_snapshot().links_ok as u64 });
         out.push(q.len() as u64);
     };
     obs.borrow_mut().pages_this_call = 0;
